@@ -230,6 +230,7 @@ def build(spec, decorate=None, on_action=None, budget=30):
   REFL = signals.REFLECTION_SIGNAL
   SEARCH = signals.SEARCH_FOR_SUPER_SIGNAL
   faults = spec.get("faults") or None
+  initnone = spec.get("initnone") or None
   signums = {}
   for s in spec["sigs"]:
     signals.append(s)
@@ -278,6 +279,11 @@ def build(spec, decorate=None, on_action=None, budget=30):
       elif has_initc[i]:
         rt.log.append(("INIT", i))
         run_actions(i, "INIT", chart, e)
+        if initnone and initnone[i]:
+          # a side-effect-only init action that forgets its status: "no initial transition"
+          if rt.keep_raw:
+            rt.raw.append(("ret", e.signal_name, i, None, False))
+          return None
         status = HANDLED
     elif sig in signums:
       name = signums[sig]
